@@ -65,6 +65,11 @@ def cases(tier, seed):
         cur.append(spec)
     if cur:
         yield f"C02|{cur_f}|{idx:04d}|{cur[0][1]}..", {"specs": cur, "tier": tier}
+    if q:
+        # the larger fields GF(32), GF(64) in the quick tier as well: the first design distances of each (the word cap bounds the cost)
+        extra = [s_ for s_ in C.bch("thorough", seed) if s_[2].get("mu") in (5, 6) and s_[2].get("delta") in (3, 5, 7, 11) and s_[2].get("info") == "left" and "dtype" not in s_[2]]
+        for s_ in extra:
+            yield f"C02|bch|large-field|{s_[1]}", {"specs": [s_], "tier": tier}
     for i, seq in enumerate(C.mixing_sequences()):
         if seq[0][0] == "bch":
             seq = seq[:3]          # Berlekamp-Massey costs ~2 ms per word: A, B, B' are enough to expose state shared between decoder instances
@@ -176,7 +181,7 @@ def check(spec, tier, res):
     from kaira.models.fec import decoders as D
     code = C.Code(enc)
     n, k = code.n, code.k
-    if k > 14 or n > 64:
+    if (k > 14 and fam != "bch") or n > 64:      # (BCH codes of any dimension: the Berlekamp-Massey decoder needs no codebook; structured messages above k = 12)
         return
     msgs = list(range(1 << k)) if k <= 12 else C.message_set(k)
     try:
